@@ -12,6 +12,21 @@ def history_lines(run, limit=4000):
     ev.sort()
     return [e[1] for e in ev][:limit]
 
+def private_model(out):
+    """a private copy of the extracted model driver (other checks may rebuild ocaml/build/modeldrv while we run)"""
+    import shutil
+    for attempt in range(20):
+        try:
+            src = vlib.ensure_model()
+            dst = os.path.join(out, 'modeldrv.k8')
+            shutil.copy2(src, dst); os.chmod(dst, 0o755)
+            probe = vlib.run_lines(dst, ['lts_check A;0;L;.;0;0;0;0;0;0;0;3;-'])
+            if probe and probe[0].startswith('ok'): return dst
+            return None
+        except (OSError, vlib.BuildError):
+            time.sleep(3)
+    return None
+
 # ------------------------------------------------------------------ abstract traces against the Coq model
 def validate_abs(model, abs_lines):
     """feed one observed abstract-state trace to the extracted checker (Lts.check_trace);
@@ -156,12 +171,7 @@ def _done_counts(tot, done):
 def run_c08(rep, tier, seed):
     out = vlib.scratch_dir()
     exe = k8lib.build_k8(out, 'pthread')
-    try:
-        model = vlib.ensure_model()
-        probe = vlib.run_lines(model, ['lts_check A;0;L;.;0;0;0;0;0;0;0;3;-'])
-        if not probe or not probe[0].startswith('ok'): model = None
-    except Exception:
-        model = None
+    model = private_model(out)
     nsc, nsched = (60, 5) if tier == 'quick' else (2000, 10)
     rng = vlib.Rng(seed ^ 0xC08C08)
     jobs = []
@@ -276,12 +286,7 @@ def detector_selftest(exe, base, rep):
 def run_c09(rep, tier, seed):
     out = vlib.scratch_dir()
     exe = k8lib.build_k8(out, 'pthread')
-    try:
-        model = vlib.ensure_model()
-        probe = vlib.run_lines(model, ['lts_check A;0;L;.;0;0;0;0;0;0;0;3;-'])
-        if not probe or not probe[0].startswith('ok'): model = None
-    except Exception:
-        model = None
+    model = private_model(out)
     nsc, nsched = (60, 5) if tier == 'quick' else (2000, 10)
     rng = vlib.Rng(seed ^ 0xC09C09)
     jobs = []; idx = 0
